@@ -57,7 +57,7 @@ class StaticCondensation(Module):
     """
 
     def _prepare(self, main, free, **kwargs):
-        self.module_LinSolve = LinSolve([self.sig_in[0], Signal()], **kwargs)
+        self.module_LinSolve = LinSolve([Signal(), Signal()], **kwargs)
         self.module_LinSolve.use_lda_solver = False
         self.m = main
         self.f = free
@@ -118,7 +118,7 @@ class SystemOfEquations(Module):
     """
 
     def _prepare(self, free=None, prescribed=None, **kwargs):
-        self.module_LinSolve = LinSolve([self.sig_in[0], Signal()], **kwargs)
+        self.module_LinSolve = LinSolve([Signal(), Signal()], **kwargs)
         self.f = free
         self.p = prescribed
         assert self.p is not None or self.f is not None, "Either prescribed or free indices must be provided"
